@@ -62,6 +62,7 @@ class Interp(object):
         self.overrides = {}       # fn path -> python callable(interp, st, args) -> (ret, st)
         self.static_cells = {}
         self.firstset_of = {}
+        self.unwrap_newtype_results = False
         self.bv_cands = {}        # id(BV) -> (BV, frozenset of the only values it can take): discriminants of a symbolic enum value
         self.elem_preds = None    # while a list-loop body is probed: predicates met on the symbolic history element
         self.late_join = set()    # functions whose loop-free branches are joined only at the function exit (refinement)
@@ -1302,6 +1303,16 @@ class Interp(object):
                 return Enum(ty, self.var_by_discr(ty, int.from_bytes(raw, 'little')))
             if not ti['enum'] and len(ti['variants'][0]['fields']) == 1:
                 return Struct(ty, (self.decode_bytes(raw, ti['variants'][0]['fields'][0]),))
+            if not ti['enum'] and ti.get('offs') is not None and len(ti['offs']) == len(ti['variants'][0]['fields']):
+                # a struct constant (`const EMPTY: PieceBoardState = PieceBoardState { .. }`): fields at their layout offsets
+                fields = []
+                for fty, off in zip(ti['variants'][0]['fields'], ti['offs']):
+                    fti = self.tyinfo(fty) or {}
+                    sz = fti['bits'] // 8 if fti.get('k') in ('int', 'char') else (1 if fti.get('k') == 'bool' else None)
+                    if sz is None:
+                        return Top('bytes of ' + ty)
+                    fields.append(self.decode_bytes(raw[off:off + sz], fty))
+                return Struct(ty, tuple(fields))
         if ti['k'] == 'tuple' and not ti['of']:
             return UNIT
         if ti['k'] == 'tuple' and ti.get('offs') is not None:
@@ -1457,11 +1468,35 @@ class Interp(object):
         if st is None:
             st = State({}, pc)
         self.deadline = time.time() + self.budget_s
+        # a rule speaks in plain integers (bitboards); a helper refactored to take / return a newtype around one integer
+        # (`struct BitBoard(u64)`) is called with the wrapped value and its result is unwrapped again
+        wrapped = False
+        f = self.fns.get(fname)
+        if f is not None and len(args) == f.get('argc'):
+            args = list(args)
+            for i, a in enumerate(args):
+                nt = self._int_newtype(f['locals'][i + 1])
+                if nt is not None and isinstance(a, BV):
+                    args[i] = Struct(nt, (a,))
+                    wrapped = True
         try:
             ret, st = self.call_local(fname, args, st)
         finally:
             self.deadline = None
+        if f is not None and isinstance(ret, Struct) and len(ret.fields) == 1 and isinstance(ret.fields[0], (BV, HF)) \
+                and self._int_newtype(f['locals'][0]) is not None and (wrapped or self.unwrap_newtype_results):
+            ret = ret.fields[0]
         return ret, st
+
+    def _int_newtype(self, ty):
+        """the type name when `ty` is a local struct with exactly one field of an integer type"""
+        ti = self.types.get(ty)
+        if ti and ti.get('k') == 'adt' and not ti.get('enum') and ti.get('local') and len(ti['variants']) == 1 \
+                and len(ti['variants'][0]['fields']) == 1:
+            fti = self.types.get(ti['variants'][0]['fields'][0]) or {}
+            if fti.get('k') == 'int':
+                return ty
+        return None
 
     def call_local(self, fname, args, st, targs=None):
         if fname in self.overrides:
